@@ -669,6 +669,102 @@ def _pass_plain_locals(fn) -> bool:
     return changed
 
 
+def _pass_tail_returns(fn) -> bool:
+    """Single exit with a result variable -> early returns.  ``v = <const>`` at the top level, ``return v`` as the
+    last statement, ``v`` read nowhere else, and every other binding of ``v`` a plain ``v = E`` that is the last
+    thing executed before the final return (tail position of the if/elif chain that precedes it): each such
+    ``v = E`` is ``return E`` and the final return yields the initial constant.  Anything else is left alone."""
+    if not fn.body or not (isinstance(fn.body[-1], ast.Return) and isinstance(fn.body[-1].value, ast.Name)) or len(fn.body) < 3:
+        return False
+    v = fn.body[-1].value.id
+    a = fn.args
+    if v in {x.arg for x in a.posonlyargs + a.args + a.kwonlyargs} or (a.vararg and a.vararg.arg == v) or (a.kwarg and a.kwarg.arg == v):
+        return False
+    loads = stores = 0
+    for n in ast.walk(fn):
+        if isinstance(n, ast.Name) and n.id == v:
+            if isinstance(n.ctx, ast.Load):
+                loads += 1
+            else:
+                stores += 1
+        elif isinstance(n, ast.ExceptHandler) and n.name == v:
+            return False
+        elif isinstance(n, (ast.Global, ast.Nonlocal)) and v in n.names:
+            return False
+        elif isinstance(n, ast.arg) and n.arg == v:
+            return False
+    if loads != 1:
+        return False
+
+    def is_store(st) -> bool:
+        return isinstance(st, ast.Assign) and len(st.targets) == 1 and isinstance(st.targets[0], ast.Name) and st.targets[0].id == v
+
+    inits = [i for i, st in enumerate(fn.body[:-1]) if is_store(st)]
+    if len(inits) != 1 or not isinstance(fn.body[inits[0]].value, ast.Constant) or inits[0] == len(fn.body) - 2:
+        return False
+    init = fn.body[inits[0]]
+    tails: List[Tuple[list, int]] = []
+
+    def tail(block) -> None:
+        if not block:
+            return
+        last = block[-1]
+        if is_store(last):
+            tails.append((block, len(block) - 1))
+        elif isinstance(last, ast.If):
+            tail(last.body)
+            tail(last.orelse)
+
+    tail(fn.body[:-1])
+    if not tails or stores != 1 + len(tails):
+        return False  # some binding of v is not in tail position (or is not a plain assignment)
+    if any(isinstance(x, ast.Name) and x.id == v for blk, i in tails for x in ast.walk(blk[i].value)):
+        return False
+    for blk, i in tails:
+        blk[i] = ast.copy_location(ast.Return(value=blk[i].value), blk[i])
+    fn.body[-1] = ast.copy_location(ast.Return(value=copy.deepcopy(init.value)), fn.body[-1])
+    return True
+
+
+def _pass_join_index(fn) -> bool:
+    """`t = f(..); a = t[0]; b = t[1]` (adjacent, in order, ``t`` used nowhere else) is `a, b = f(..)`; likewise for `t = q[i]`"""
+    changed = False
+    uses: Dict[str, int] = {}
+    for n in ast.walk(fn):
+        if isinstance(n, ast.Name):
+            uses[n.id] = uses.get(n.id, 0) + 1
+    for node in ast.walk(fn):
+        for fld in ("body", "orelse", "finalbody"):
+            b = getattr(node, fld, None)
+            if not (isinstance(b, list) and b and isinstance(b[0], ast.stmt)):
+                continue
+            i = 0
+            while i < len(b):
+                st = b[i]
+                i += 1
+                if not (isinstance(st, ast.Assign) and len(st.targets) == 1 and isinstance(st.targets[0], ast.Name) and isinstance(st.value, (ast.Call, ast.Subscript))):
+                    continue
+                t = st.targets[0].id
+                names: List[str] = []
+                j = i
+                while j < len(b):
+                    s2 = b[j]
+                    if not (isinstance(s2, ast.Assign) and len(s2.targets) == 1 and isinstance(s2.targets[0], ast.Name)
+                            and isinstance(s2.value, ast.Subscript) and isinstance(s2.value.value, ast.Name) and s2.value.value.id == t
+                            and isinstance(s2.value.slice, ast.Constant) and s2.value.slice.value == len(names) and type(s2.value.slice.value) is int):
+                        break
+                    names.append(s2.targets[0].id)
+                    j += 1
+                if len(names) < 2 or len(set(names)) != len(names) or t in names or uses.get(t, 0) != 1 + len(names):
+                    continue
+                tgt = ast.Tuple(elts=[ast.Name(id=x, ctx=ast.Store()) for x in names], ctx=ast.Store())
+                new = ast.copy_location(ast.Assign(targets=[tgt], value=st.value), st)
+                ast.fix_missing_locations(new)
+                b[i - 1:j] = [new]
+                changed = True
+    return changed
+
+
 def _pass_walrus(fn) -> bool:
     """`if (x := E) <rest>:` -> `x = E; if x <rest>:` (also for the value of a simple statement) when the
     assignment expression is evaluated unconditionally and first in that header; `while (x := E) ..:` becomes
@@ -1083,7 +1179,7 @@ def _pass_alias(fn, cls: Optional[ast.ClassDef]) -> bool:
     return changed
 
 
-def inline_tree(tree: ast.Module, keep: Iterable[str]) -> ast.Module:
+def inline_tree(tree: ast.Module, keep: Iterable[str], tail_returns: bool = False, join_index: bool = False) -> ast.Module:
     tree = copy.deepcopy(tree)
     mod = _Module(tree, set(keep))
     units: List[Tuple[Optional[ast.ClassDef], ast.AST]] = []
@@ -1097,6 +1193,8 @@ def inline_tree(tree: ast.Module, keep: Iterable[str]) -> ast.Module:
     for cls, fn in units:
         try:
             _pass_walrus(fn)  # `if (x := self._h()) ..` must become a plain assignment before helpers are inlined
+            if tail_returns:
+                _pass_tail_returns(fn)  # before inlining: the lowering of a helper's returns then sees early returns
         except RecursionError:
             pass
     for cls, fn in units:
@@ -1111,6 +1209,8 @@ def inline_tree(tree: ast.Module, keep: Iterable[str]) -> ast.Module:
         try:
             _pass_walrus(fn)
             _pass_plain_locals(fn)
+            if join_index:
+                _pass_join_index(fn)
             _pass_positional(fn, mod, cls)
             _pass_split_swaps(fn)
             _pass_alias(fn, cls)
@@ -1147,7 +1247,7 @@ def inline_tree(tree: ast.Module, keep: Iterable[str]) -> ast.Module:
 _CACHE: Dict[Tuple[str, str, Tuple[str, ...]], ast.Module] = {}
 
 
-def inline_repo(repo: Repo, relpaths: Iterable[str], keep: Iterable[str]) -> Repo:
+def inline_repo(repo: Repo, relpaths: Iterable[str], keep: Iterable[str], tail_returns: bool = False, join_index: bool = False) -> Repo:
     """Copy of ``repo`` whose listed modules have their private helpers inlined
     (cached by source digest).  A module that cannot be rewritten is left as it is."""
     keep_t = tuple(sorted(set(keep)))
@@ -1158,12 +1258,12 @@ def inline_repo(repo: Repo, relpaths: Iterable[str], keep: Iterable[str]) -> Rep
         if rel not in repo.modules:
             continue
         m = repo.modules[rel]
-        key = (rel, m.digest, keep_t)
+        key = (rel, m.digest, keep_t, tail_returns, join_index)
         if key not in _CACHE:
             if len(_CACHE) > 64:
                 _CACHE.clear()
             try:
-                _CACHE[key] = inline_tree(m.tree, keep_t)
+                _CACHE[key] = inline_tree(m.tree, keep_t, tail_returns, join_index)
             except Exception:
                 _CACHE[key] = m.tree
         if _CACHE[key] is not m.tree:
